@@ -36,13 +36,13 @@
 (*           "share"  new.ref = prev.ref                                                          *)
 (*           "move"   new.ref = prev.ref ; prev.ref = nil          (RateLimiter.reload at the pin)*)
 (*   Cls(k)  "none" / "stop"  Close leaves Handle usable (stops background work only)             *)
-(*           "kill"   Handle after Close fails                                                    *)
+(*           "kill"   Handle after Close fails, and so does a call that is in flight during Close *)
 (* The contract (what C11 states) are the invariants at the end; they must hold for the modes of  *)
 (* the real code.                                                                                 *)
 EXTENDS Integers, Sequences, FiniteSets
 
 CONSTANTS Reqs,        \* request processes (strings)
-          Routed,      \* <<pa, pb>>: odd server generations route to pa, even ones to pb
+          Routed,      \* <<pa, pb>>: odd versions of the rules route to pa, even ones to pb
           Others,      \* pipelines the server never routes to (created / deleted by the updater)
           Kinds,       \* sequence of the stateful filter kinds of every pipeline
           InhRl, ClsRl, InhPx, ClsPx,   \* modes of the kinds "rl" (RateLimiter) and "px" (Proxy)
